@@ -6,7 +6,7 @@
    Only statements, each closed by [exact], each followed by Print Assumptions. *)
 From Coq Require Import List NArith.
 Import ListNotations.
-From GMS Require Import Sys.Locks Sys.LocksProofs.
+From GMS Require Import Sys.Locks Sys.LocksProofs Sys.C38Cover.
 Open Scope N_scope.
 
 (* one concrete step is matched by zero or more atomic specification steps with the same visible label,
@@ -71,6 +71,26 @@ Theorem C38_sequential_spec_refines_atomic_spec :
              agrees (fst (seq_step t o names s)) a' /\ (forall t', t' <> t -> apcs a' t' = apcs a t').
 Proof. exact seq_step_refines. Qed.
 Print Assumptions C38_sequential_spec_refines_atomic_spec.
+
+(* ReleaseAll covers every held lock, for EVERY interleaving: an idle session's lock set (the list ReleaseAll's loop
+   runs over, start_pc) contains every name whose cell it owns; while the loop runs every lock still held is still to
+   be visited; and when ReleaseAll is about to return the session holds nothing.  (ReleaseAll never calls DelLock,
+   so the set may also contain stale names: they are skipped because their owner is someone else.) *)
+Theorem C38_idle_session_set_covers_held_locks :
+  forall tr s t n id c, cexec cinit tr s -> t <> 0 -> pcs s t = PIdle -> lk s n = Some (id, t, c) -> In n (sset s t).
+Proof. exact idle_session_set_covers_held_locks. Qed.
+Print Assumptions C38_idle_session_set_covers_held_locks.
+
+Theorem C38_release_all_todo_covers_held_locks :
+  forall tr s t todo k n id c, cexec cinit tr s -> t <> 0 -> pcs s t = PRIter todo k ->
+  lk s n = Some (id, t, c) -> In n todo.
+Proof. exact release_all_todo_covers_held_locks. Qed.
+Print Assumptions C38_release_all_todo_covers_held_locks.
+
+Theorem C38_release_all_leaves_nothing_held :
+  forall tr s t k n id c, cexec cinit tr s -> t <> 0 -> pcs s t = PRet (RCount k) -> lk s n <> Some (id, t, c).
+Proof. exact release_all_leaves_nothing_held. Qed.
+Print Assumptions C38_release_all_leaves_nothing_held.
 
 (* non-vacuity: two sessions race for the same new name; one CAS wins, the other fails and re-reads *)
 Example C38_nonvacuous :
